@@ -401,7 +401,19 @@ fn run_one<S: Settings>(sc: &J) -> Vec<J> {
     let model = mk_model();
     let rec_cfg = RecConfig { storage_faults: storage_faults.clone() };
     let created = std::panic::catch_unwind(std::panic::AssertUnwindSafe(|| {
-        Sampler::new(model, settings, rec_cfg, num_cores, None)
+        // optional progress callback (runs on the controller thread between commands)
+        let callback = sc["cb_rate_us"].as_u64().map(|us| nuts_rs::ProgressCallback {
+            callback: Box::new(|elapsed: std::time::Duration, progress: Box<[nuts_rs::ChainProgress]>| {
+                uemit(json!({"ev": "cb", "elapsed_us": elapsed.as_micros() as u64,
+                    "finished": progress.iter().map(|p| p.finished_draws).collect::<Vec<_>>(),
+                    "total": progress.iter().map(|p| p.total_draws).collect::<Vec<_>>(),
+                    "divergences": progress.iter().map(|p| p.divergences).collect::<Vec<_>>(),
+                    "steps": progress.iter().map(|p| p.total_num_steps).collect::<Vec<_>>(),
+                    "started": progress.iter().map(|p| p.started).collect::<Vec<_>>()}));
+            }),
+            rate: std::time::Duration::from_micros(us),
+        });
+        Sampler::new(model, settings, rec_cfg, num_cores, callback)
     }));
     let mut result = J::Null;
     match created {
